@@ -473,6 +473,12 @@ func (e *SpecEnv) trCall(x *ECall) (TV, error) {
 			sorts = append(sorts, want.Sort())
 			ts = append(ts, args[i].T)
 		}
+		if f.SMT != "" {
+			if len(ts) == 0 {
+				return TV{f.SMT, rt}, nil
+			}
+			return TV{"(" + f.SMT + " " + strings.Join(ts, " ") + ")", rt}, nil
+		}
 		vc.declareFun(f.Name, sorts, rt.Sort())
 		if len(ts) == 0 {
 			return TV{f.Name, rt}, nil
@@ -519,6 +525,38 @@ func (e *SpecEnv) trCall(x *ECall) (TV, error) {
 		vc.u.regElem(args[0].Ty.Elem)
 		m := vc.mem(e.st, elemMem(args[0].Ty.Elem), elemMemSort(args[0].Ty.Elem))
 		return TV{vc.seed(sel(m, "(s-arr "+args[0].T+")"), arraySort("Int", args[0].Ty.Elem.Sort())), &Ty{K: KSeq, Elem: args[0].Ty.Elem}}, nil
+	case "elemHeap": // elemHeap(s): the whole element memory that holds the backing array of slice s (array id -> contents)
+		if err := need(1); err != nil {
+			return TV{}, err
+		}
+		if args[0].Ty.K != KSlice {
+			return TV{}, fmt.Errorf("elemHeap of %s", args[0].Ty)
+		}
+		vc.u.regElem(args[0].Ty.Elem)
+		return TV{vc.mem(e.st, elemMem(args[0].Ty.Elem), elemMemSort(args[0].Ty.Elem)), &Ty{K: KSeq, Elem: &Ty{K: KSeq, Elem: args[0].Ty.Elem}}}, nil
+	case "innerHeap": // innerHeap(R) for R [][]E: the element memory of the inner slices (array id -> contents)
+		if err := need(1); err != nil {
+			return TV{}, err
+		}
+		if args[0].Ty.K != KSlice || args[0].Ty.Elem.K != KSlice {
+			return TV{}, fmt.Errorf("innerHeap of %s", args[0].Ty)
+		}
+		vc.u.regElem(args[0].Ty.Elem.Elem)
+		return TV{vc.mem(e.st, elemMem(args[0].Ty.Elem.Elem), elemMemSort(args[0].Ty.Elem.Elem)), &Ty{K: KSeq, Elem: &Ty{K: KSeq, Elem: args[0].Ty.Elem.Elem}}}, nil
+	case "fieldHeap": // fieldHeap("T", "f"): the heap array of field f of struct T (object -> value)
+		if err := need(2); err != nil {
+			return TV{}, err
+		}
+		ts, ok1 := x.Args[0].(*EStr)
+		fs, ok2 := x.Args[1].(*EStr)
+		if !ok1 || !ok2 {
+			return TV{}, fmt.Errorf("fieldHeap needs two string literals")
+		}
+		srt, fty, err := vc.fieldSort(ts.V, fs.V)
+		if err != nil {
+			return TV{}, err
+		}
+		return TV{vc.mem(e.st, fieldMem(ts.V, fs.V), srt), &Ty{K: KSeq, Elem: fty}}, nil
 	case "arr":
 		if err := need(1); err != nil {
 			return TV{}, err
